@@ -253,6 +253,10 @@ def sess_iofail(texts):
         for t in (b'', b'a = 1;\n', b'a = (1, 2'):
             impl.do('init'); out = impl.do('read_stream_eagain ' + H(t)); impl.do('errio'); impl.do('dump'); impl.do('battery')
             k = 'iofail:eagain:%s' % (out or '?').split(' ')[0][:12]; stats[k] = stats.get(k, 0) + 1
+        if impl.do('probe_badfile ' + H(BAD)) != '1':
+            stats['iofail:no-unreadable-file-on-this-system'] = 1      # the file / include cases need one
+            impl.do('leakcheck3')
+            return
         impl.do('init'); after('file', impl.do('read_file_ioerr ' + H(BAD)))
         for t in (b'a = 1;\n@include "/proc/self/mem"\nb = 2;\n', b'@include "/proc/self/mem"\n', b'g = {\n@include "/proc/self/mem"\n',
                   b'a = 1;\n@include "/proc/self/mem"\nb = ;\n'):
